@@ -171,6 +171,17 @@ def executor(ck):
                 if all(T.reachable_only_via(sc, e.bb, T.discr_edges(sc, sw, 1)) for e in eff) and eff:
                     ok = True
         ck.verdict(ok, "4", "T4-guarded-by", sc, "effects-only-if-table-present", "schedule() spawns/enqueues only when the task table still exists (ExecutorDestroyed otherwise)", "schedule() has effects although the executor was destroyed", site=sc.where())
+        vk = [cs for cs in sc.calls() if cs.name == "vacant_key" and not sc.is_cleanup(cs.bb)]
+        ins = [cs for cs in sc.calls() if cs.name == "insert" and cs.f and "Slab" in cs.f["path"] and not sc.is_cleanup(cs.bb)]
+        meta = [cs for cs in sc.calls() if cs.name == "metadata" and not sc.is_cleanup(cs.bb)]
+        other_mut = [cs for cs in sc.calls() if cs.name in ("remove", "clear", "insert") and cs.f and "Slab" in cs.f["path"] and not sc.is_cleanup(cs.bb) and cs.bb not in [x.bb for x in ins[:1]]]
+        ok = len(vk) == 1 and len(ins) == 1 and sc.dominates(vk[0].bb, ins[0].bb) and not other_mut and bool(meta) and all(T.resolves_to_call(sc, m_.args[1], [vk[0].bb]) for m_ in meta)
+        if ok:
+            gf0 = ck.guardflow(sc)
+            # the table stays borrowed from vacant_key to insert: nothing else can take the key in between
+            held = all(any("Slab" in f.short_ty(p) for l, k, p in gf0.live_payloads(bb_)) for bb_ in (vk[0].bb, ins[0].bb))
+            ok = held
+        ck.verdict(ok, "3", "T6-provenance", sc, "task-index=vacant_key=insert-key", "the index stored in the task's metadata (where its result will be written) is the key the table hands out for the inserted entry: vacant_key() precedes the single insert with the table borrowed throughout", "the index a task stores its result under is not guaranteed to be the key of the entry inserted for it", site=sc.where())
         gf = ck.guardflow(sc)
         runs = [cs for cs in sc.calls() if cs.name == "schedule" and cs.f and "Runnable" in cs.f["path"]]
         for r_ in runs:
